@@ -377,7 +377,8 @@ def ledger(loop, server, main_port=PORT, *, expect_main_listener=True):
     """What the server still holds: -> dict of leaks (empty dict = clean)."""
     net = loop.net
     leaks = {}
-    open_s = [t for t in net.open_transports if t.side == "s"]
+    # a transport counts as released once the server has called close() on it (flushing the rest is the OS's business)
+    open_s = [t for t in net.all_transports if t.side == "s" and not t._closing and not t._conn_lost]
     if open_s:
         leaks["server_transports_open"] = [(t.listener_port, t.local[1], t.remote[1]) for t in open_s]
     listeners = sorted(p for (_h, p) in net.listeners)
